@@ -28,7 +28,8 @@ MANIFEST = {
 }
 
 REQUIRED = ["KV.C14.split_agree", "KV.C14.score_sum", "KV.C14.fast_eq_slow", "KV.C14.stateful_eq",
-            "KV.C14.perplexity_def", "KV.C14.facade_identity", "KV.C14.split_nul_witness"]
+            "KV.C14.perplexity_def", "KV.C14.facade_identity", "KV.C14.split_nul_witness", "KV.C14.query_eq",
+            "KV.C14.facade_sentence", "KV.C14.table_agree"]
 
 COMBOS = ["TT", "TF", "FT", "FF"]
 PY_SPACES = b" \t\n\r\x0b\x0c"
@@ -359,28 +360,93 @@ def parse_fold(val):
 
 
 class Reporter:
-    """dedups violations per class so that one defect gives one minimal replay"""
+    """The sink of the main run: counts/histograms go to ctx; failures are grouped per class — known findings are
+    reported at once, the first failing case of every other class is kept, shrunk at the end and written as one replay."""
 
     def __init__(self, ctx):
         self.ctx = ctx
         self.seen = {}
         self.found = False
+        self.pending = {}     # cls -> (what, model descriptor, sentence, detail)
+        self.cov = ctx.cov
+        self.rng = ctx.rng
+
+    def count(self, *a, **k):
+        self.ctx.count(*a, **k)
+
+    def hist(self, *a, **k):
+        self.ctx.hist(*a, **k)
+
+    def sample(self, *a, **k):
+        self.ctx.sample(*a, **k)
 
     def fail(self, cls, what, model, s, detail, key=None):
-        k = (cls, key)
-        n = self.seen.get(k, 0)
-        self.seen[k] = n + 1
+        n = self.seen.get(cls, 0)
         if key is not None and any(kf.get("key") == key and kf.get("status", "open") == "open" for kf in self.ctx.known):
             self.ctx.violation(what, {}, key=key)
             self.ctx.hist("known." + key, cls)
             return
+        self.seen[cls] = n + 1
         self.found = True
-        if n >= 2:
-            return
-        body = {"stream": "python", "class": cls, "model": model, "sentence_hex": s.hex(), "sentence_repr": repr(s)}
-        body.update(detail)
-        body["replay_cmd"] = "VERIF_SEED=%d python3 check.py C14 --tier %s" % (self.ctx.seed, self.ctx.tier)
-        self.ctx.violation(what, body, key=key)
+        if cls not in self.pending or (s and len(s) < len(self.pending[cls][2])):
+            self.pending[cls] = (what, model, s, detail)
+
+    def flush(self, env):
+        """shrink (ddmin over the sentence bytes, same model, same failure class) and write the replays"""
+        budget = 6
+        for cls, (what, model, s, detail) in sorted(self.pending.items()):
+            body = {"stream": "python", "class": cls, "model": model, "cases_failing_in_this_class": self.seen.get(cls, 1)}
+            small, sdetail = s, detail
+            md = env.model_by_name.get(model)
+            if s and md is not None and budget > 0 and len(s) > 1:
+                budget -= 1
+
+                def fails(bs, _cls=cls, _md=md):
+                    col = Collector()
+                    evaluate(env, col, [dict(_md)], [bytes(bs)], [], quiet=True)
+                    hit = [f for f in col.fails if f[0] == _cls and not f[5]]
+                    if hit:
+                        fails.last = hit[0]
+                    return bool(hit)
+                fails.last = None
+                try:
+                    res = stream.ddmin(list(s), fails, max_tests=60)
+                    if fails.last is not None and len(res) < len(s) and bytes(res) == fails.last[3]:
+                        small, sdetail = bytes(res), fails.last[4]
+                        body["original_sentence_hex"] = s.hex()
+                except Exception as ex:                 # noqa  (shrinking is best effort)
+                    body["shrink_error"] = repr(ex)
+            body.update({"sentence_hex": small.hex(), "sentence_repr": repr(small)})
+            body.update(sdetail)
+            body["replay_cmd"] = "VERIF_SEED=%d python3 check.py C14 --tier %s" % (self.ctx.seed, self.ctx.tier)
+            self.ctx.violation(what, body)
+        self.pending = {}
+
+
+class Collector:
+    """sink used while shrinking: records failures, counts nothing"""
+
+    def __init__(self):
+        self.fails = []
+        self.cov = {"samples": [0] * 99}
+        import random
+        self.rng = random.Random(0)
+
+    def count(self, *a, **k):
+        pass
+
+    def hist(self, *a, **k):
+        pass
+
+    def sample(self, *a, **k):
+        pass
+
+    def fail(self, cls, what, model, s, detail, key=None):
+        self.fails.append((cls, what, model, s, detail, key))
+
+
+class Env:
+    pass
 
 
 def run(ctx):
@@ -413,8 +479,13 @@ def run(ctx):
 
     wd = os.path.join(SCRATCH, "build", repo.tree_hash(), "c14_models_%d_%s_%d" % (ctx.seed, ctx.tier, os.getpid()))
     os.makedirs(wd, exist_ok=True)
+    env = Env()
+    env.dexe, env.hexe, env.extdir, env.bindir, env.wd, env.known = dexe, hexe, extdir, bindir, wd, ctx.known
     try:
-        _run_streams(ctx, rep, problems, dexe, hexe, extdir, bindir, wd, consts)
+        job_models, all_sents = prepare(ctx, env, problems)
+        env.model_by_name = {m["name"]: m for m in job_models}
+        evaluate(env, rep, job_models, all_sents, problems)
+        rep.flush(env)
     finally:
         import shutil
         shutil.rmtree(wd, ignore_errors=True)
@@ -429,8 +500,9 @@ def run(ctx):
     flow.report_obligation_failures(ctx, problems, rep.found)
 
 
-def _run_streams(ctx, rep, problems, dexe, hexe, extdir, bindir, wd, consts):
-    models, vocab, mp = make_models(ctx, bindir, wd)
+def prepare(ctx, env, problems):
+    """models and sentences of this run"""
+    models, vocab, mp = make_models(ctx, env.bindir, env.wd)
     for p in mp:
         problems.append("model preparation: " + p)
     vocab = [w for w in vocab if w not in (b"<s>",)]
@@ -441,7 +513,6 @@ def _run_streams(ctx, rep, problems, dexe, hexe, extdir, bindir, wd, consts):
     nul_sents = [b"looking\x00on a little", b"\x00", b"a\x00", b"\x00a", b"looking on\x00 a little", b"a\x00zzz b"]
     nul_sents += [gen_sentence(ctx.rng, vocab, nul=True) for _ in range(n_nul)]
     all_sents = sents + nul_sents
-    is_nul = [b"\x00" in s for s in all_sents]
     load_methods = ["LAZY", "POPULATE_OR_LAZY", "POPULATE_OR_READ", "READ"]
     job_models = []
     for i, (name, kind, path) in enumerate(models):
@@ -462,7 +533,17 @@ def _run_streams(ctx, rep, problems, dexe, hexe, extdir, bindir, wd, consts):
                 for lm_ in load_methods:
                     job_models.append({"path": path, "load_method": lm_, "name": name + "@" + lm_, "kind": kind})
     ctx.cov["models"] = [m["name"] + (":" + m["load_method"] if m["load_method"] else "") for m in job_models]
+    return job_models, all_sents
 
+
+_job_counter = [0]
+
+
+def evaluate(env, ctx, job_models, all_sents, problems, quiet=False):
+    """Run every stream on (models x sentences) and report to the sink `ctx` (Reporter or Collector)."""
+    rep = ctx
+    dexe, hexe, extdir, bindir, wd = env.dexe, env.hexe, env.extdir, env.bindir, env.wd
+    is_nul = [b"\x00" in s for s in all_sents]
     # ---- Lean driver: the plan (tokens under both splitters, fold structure) for every sentence
     plans = None
     if dexe:
@@ -479,7 +560,8 @@ def _run_streams(ctx, rep, problems, dexe, hexe, extdir, bindir, wd, consts):
                     break
 
     # ---- Python extension
-    job = os.path.join(wd, "job.json")
+    _job_counter[0] += 1
+    job = os.path.join(wd, "job%d.json" % _job_counter[0])
     json.dump({"models": job_models, "sentences": [s.hex() for s in all_sents]}, open(job, "w"))
     rc, o, e = sh([sys.executable, os.path.join(VERIF, "checks", "C14_pyharness.py"), extdir, job],
                    timeout=3000, env={"PYTHONDONTWRITEBYTECODE": "1"})
@@ -702,6 +784,15 @@ def check_case(ctx, rep, name, s, nul, plan, h_sent, h_plan, h_third, py, q_ctx,
             fail("pysplit", "the model's pySplit differs from CPython's bytes.split()", {"python": py["split"], "model": plan["py"]})
         if int(plan["ppl"]) != len(s.split()) + 1:
             fail("ppl-words", "model's perplexity word count differs", {"model": plan["ppl"]})
+    if plan is not None and plan.get("q", "x") != "x":
+        for q, with_ctx in ((q_ctx, True), (q_noctx, False)):
+            if q is None:
+                continue
+            surf = [w.hex() for (w, _, _, _) in q[0]]
+            want = ([] if plan["q"] == "-" else plan["q"].split(",")) + (["3c2f733e"] if with_ctx else [])
+            if surf != want:
+                fail("query-structure", "bin/query reads a different word sequence from the line than the model's queryWords "
+                     "(ReadWordSameLine over kSpaces; </s> appended with sentence context)", {"query": surf, "model": want})
     if h_plan is not None:
         if "VMISMATCH" in h_plan:
             fail("facade", "the virtual interface (BaseFullScore/BaseScore/BeginSentenceWrite/NullContextWrite/BaseVocabulary) "
